@@ -4,6 +4,12 @@
 mod report;
 mod util;
 mod c13;
+mod c20;
+mod c19;
+mod c12;
+mod c09;
+mod c08;
+mod c06;
 mod ops;
 mod model;
 mod observe;
@@ -62,6 +68,12 @@ fn main() {
         let case = &doc["case"];
         match prop.as_str() {
             "C13" => c13::replay(&rep, case),
+            "C20" => c20::replay(&rep, case),
+            "C19" => c19::replay(&rep, case),
+            "C12" => c12::replay(&rep, case),
+            "C09" => c09::replay(&rep, case),
+            "C08" => c08::replay(&rep, case),
+            "C06" => c06::replay(&rep, case),
             "C01" => c01::replay(&rep, case, "C01"),
             "C02" => c01::replay(&rep, case, "C02"),
             "C03" => c03::replay(&rep, case),
@@ -82,6 +94,12 @@ fn main() {
     }
     let cov = match prop.as_str() {
         "C13" => c13::run(&rep),
+        "C20" => c20::run(&rep),
+        "C19" => c19::run(&rep),
+        "C12" => c12::run(&rep),
+        "C09" => c09::run(&rep),
+        "C08" => c08::run(&rep),
+        "C06" => c06::run(&rep),
         "C01" => c01::run_c01(&rep),
         "C02" => c01::run_c02(&rep),
         "C03" => c03::run(&rep),
